@@ -322,17 +322,7 @@ func ruleJSONMETHODS(c *Ctx, r *Report) {
 func ruleJSONLEAFORDER(c *Ctx, r *Report) {
 	const rule = "JSON-LEAF-ORDER"
 	r.doc(rule, "in the decoder's raw-leaf function (raw JSON value → leaf): the integer reading (strconv.Atoi/ParseInt) is tried before every other strconv reading and the float reading before every remaining one, so the digits the encoder writes for an int leaf decode as an int again (strconv.ParseBool accepts \"1\" and \"0\", ParseFloat accepts every integer); a reading decided by a leading-quote test or by json.Unmarshal into a string is disjoint from numbers and may come in any order")
-	var dec *ssa.Function
-	for _, f := range c.Funcs {
-		if fnPkgPath(f) != pkgExpr || f.Parent() != nil || f.Signature.Recv() != nil || f.Signature.Params().Len() != 1 || f.Signature.Results().Len() != 2 {
-			continue
-		}
-		pt := f.Signature.Params().At(0).Type()
-		if !isByteSlice(pt) || !isExprPtr(f.Signature.Results().At(0).Type()) || !isErrorType(f.Signature.Results().At(1).Type()) {
-			continue
-		}
-		dec = f
-	}
+	dec := c.rawLeafDecoder()
 	if dec == nil {
 		r.bad(rule, "anchor", "-", "raw-leaf decoder (func([]byte) (*Expression, error) in package expr) not found")
 		return
@@ -781,6 +771,48 @@ func (c *Ctx) ssaBoundBelow(at ssa.Instruction, v ssa.Value, n int64) bool {
 			return true
 		case !f.Pol && bo.Op == token.GEQ && k <= n, !f.Pol && bo.Op == token.GTR && k < n:
 			return true
+		}
+	}
+	return false
+}
+
+// rawLeafDecoder: the function of package expr that turns one raw JSON value into a leaf — a function or a
+// method whose single input (parameter or receiver) has the underlying type []byte (json.RawMessage, a named
+// byte slice) and whose results are (*Expression, error), and which reads numbers with strconv.
+func (c *Ctx) rawLeafDecoder() *ssa.Function {
+	var best *ssa.Function
+	for _, f := range c.Funcs {
+		if fnPkgPath(f) != pkgExpr || f.Parent() != nil || f.Synthetic != "" || len(f.Params) != 1 || f.Signature.Results().Len() != 2 {
+			continue
+		}
+		if !isByteSlice(f.Params[0].Type()) || !isExprPtr(f.Signature.Results().At(0).Type()) || !isErrorType(f.Signature.Results().At(1).Type()) {
+			continue
+		}
+		if !(c.usesNamedDeep(f, "strconv.Atoi", 2) || c.usesNamedDeep(f, "strconv.ParseInt", 2)) {
+			continue
+		}
+		if best == nil || fnName(f) < fnName(best) {
+			best = f
+		}
+	}
+	return best
+}
+
+// usesNamedDeep: f, or a library function it calls (to the given depth), calls the named function.
+func (c *Ctx) usesNamedDeep(f *ssa.Function, name string, depth int) bool {
+	if c.usesNamed(f, name) {
+		return true
+	}
+	if depth == 0 {
+		return false
+	}
+	for _, b := range f.Blocks {
+		for _, in := range b.Instrs {
+			if call, ok := in.(*ssa.Call); ok {
+				if g := call.Call.StaticCallee(); g != nil && g != f && inLib(g) && fnPkgPath(g) == fnPkgPath(f) && c.usesNamedDeep(g, name, depth-1) {
+					return true
+				}
+			}
 		}
 	}
 	return false
